@@ -71,6 +71,11 @@ ReadBackProblems(ev, b) ==
                         ~o.lhs.snap \/ Norm(o.lhs.n, o.lhs.d) # Eval(ev.cons[i].lhs, pt)
                         \/ (~ev.cons[i].assert /\ (~o.rhs.snap \/ Norm(o.rhs.n, o.rhs.d) # Eval(ev.cons[i].rhs, pt))),
                       "eval(expression) disagrees with the language's semantics at the solution")
+              \* expressions outside the model (probes over the model's variables), evaluated at the solution
+              \cup If(\E i \in 1..Len(ev.probes) : i <= Len(b.probes) /\ VarsOf(ev.probes[i]) \subseteq Used(ev) /\
+                        LET want == Eval(ev.probes[i], pt) IN
+                        IsDef(want) /\ (~b.probes[i].snap \/ Norm(b.probes[i].n, b.probes[i].d) # want),
+                      "eval(probe expression) disagrees with the language's semantics at the solution")
             ELSE {})
 Compiled(r) == r.out \in {"solution", "solver_error"}
 Problems(ev) ==
